@@ -1,12 +1,9 @@
 package rules
 
 import (
-	"encoding/json"
 	"fmt"
 	"go/ast"
 	"go/types"
-	"os"
-	"path/filepath"
 	"sort"
 	"strings"
 
@@ -34,8 +31,8 @@ func init() {
 	register(&core.Property{
 		ID:    "C20",
 		Title: "osmapi calls hit the documented endpoint and map statuses to typed errors",
-		Explanation: "Structural necessary conditions decided on /repo/osmapi (non-test files) against the external table tables/api06.json (API v0.6 paths) by symbolic execution: every function is run with symbolic inputs, package functions inlined, each undecided branch explored under both assumptions; the rules read the outcomes, so helper extraction/inlining (including helpers taking function literals, which are executed in place when called), method vs function form, grouped parameters, named results, variadic helpers, presized lists written by index, ids copied into number lists, strings accumulated with +=, mutable struct values of the package (field stores, pointer methods), lookup tables (map/slice/array/struct literals held in locals or in unexported package variables that are only read, with function values as entries) instead of if-chains or switches, branch form (if/switch/type switch), local names, named constants and statement order do not matter. " +
-			"(H1) a path that makes no request never returns a status-typed error (endpoints) and, in getFromAPI, a path that never calls Client.Do returns neither a status-typed error nor nil — conditions on the URL (its length, its content) are explored both ways; on every path of every exported *Datasource endpoint method that returns a nil error exactly one request (call of the request function getFromAPI) was made, on every other path at most one, none in a loop; HTTP requests are created/sent only in getFromAPI and helpers only it calls, which performs Client.Do exactly once before decoding, tests Do's error and returns it; every package-level wrapper performs exactly `DefaultDatasource.<same name>(<its parameters in order>)` and returns its results. " +
+		Explanation: "Structural necessary conditions decided on /repo/osmapi (non-test files) against the external table tables/api06.json (API v0.6 paths) by symbolic execution: every function is run with symbolic inputs, package functions inlined, each undecided branch explored under both assumptions; the rules read the outcomes, so helper extraction/inlining (including helpers taking function literals, which are executed in place when called), method vs function form, grouped parameters, counting loops in any spelling (for/while/guard-and-break, labelled, first iteration peeled, callback iterators), named results, single-exit result variables, variadic helpers, presized lists written by index, ids copied into number lists, strings accumulated with +=, mutable struct values of the package (field stores, pointer methods), lookup tables (map/slice/array/struct literals held in locals or in unexported package variables that are only read, with function values as entries) instead of if-chains or switches, branch form (if/switch/type switch), local names, named constants and statement order do not matter. " +
+			"(H1) no path panics on an empty id list (`ids[0]`, `ids[1:]` are only evaluated after a test of the length passed); a path that makes no request never returns a status-typed error (endpoints) and, in getFromAPI, a path that never calls Client.Do returns neither a status-typed error nor nil — conditions on the URL (its length, its content) are explored both ways; on every path of every exported *Datasource endpoint method that returns a nil error exactly one request (call of the request function getFromAPI) was made, on every other path at most one, none in a loop; HTTP requests are created/sent only in getFromAPI and helpers only it calls, which performs Client.Do exactly once before decoding, tests Do's error and returns it; every package-level wrapper performs exactly `DefaultDatasource.<same name>(<its parameters in order>)` and returns its results. " +
 			"(H2) every path reaching Client.Do has tested the limiter field against nil and, when it is non-nil, called Wait(ctx) on it before and found its error nil; when Wait fails that error is returned and no request is sent. " +
 			"(H3) executing getFromAPI for every status 100..599, every path with a successful Do ends in exactly the typed error of the table (404, 403, 410, 414, other non-200, the latter recording the status) and in the XML decode of the response body into the item parameter only for 200; NotFound, executed for nil, a foreign error and every error type of the package, is true exactly for the 404 type; the request is a GET created by http.NewRequest; on every endpoint path the request's error is tested and, when non-nil, returned unchanged. " +
 			"(H4) the URL argument of the request, evaluated symbolically on every path (constant format strings, concatenation, option and id-list loops summarised, each hole bound to a method parameter) and merged over the paths (configured vs default base URL, options given or not), equals the table entry; base-URL methods return the configured BaseURL exactly when non-empty, else the default; getFromAPI requests its URL parameter unchanged, without body. " +
@@ -55,716 +52,13 @@ func init() {
 			{ID: "H5", Floor: 36, Doc: "results come from the decoded document; element [0] only where the tests passed imply exactly one element", Run: c20H5},
 			{ID: "H6", Floor: 8, Doc: "at=, limit= (1..10000), closed= options and their joining", Run: c20H6},
 		},
-		Benign: c20Benign(),
-		Mutants: []core.Mutant{
-			{Name: "nodeversion-swap-id-version", File: "osmapi/node.go", Find: "fmt.Sprintf(\"%s/node/%d/%d\", ds.baseURL(), id, v)", Replace: "fmt.Sprintf(\"%s/node/%d/%d\", ds.baseURL(), v, id)", ExpectRule: "H4", ExpectConstruct: "(*Datasource).NodeVersion"},
-			{Name: "wayrelations-wrong-segment", File: "osmapi/way.go", Find: "%s/way/%d/relations?%s", Replace: "%s/way/%d/ways?%s", ExpectRule: "H4", ExpectConstruct: "(*Datasource).WayRelations"},
-			{Name: "relation-kind-segment", File: "osmapi/relation.go", Find: "\"%s/relation/%d?%s\"", Replace: "\"%s/relations/%d?%s\"", ExpectRule: "H4", ExpectConstruct: "(*Datasource).Relation"},
-			{Name: "ways-multifetch-separator", File: "osmapi/way.go", Find: "url += \"&\" + params", Replace: "url += \"?\" + params", ExpectRule: "H4", ExpectConstruct: "(*Datasource).Ways"},
-			{Name: "nodes-csv-semicolon", File: "osmapi/node.go", Find: "byte(',')", Replace: "byte(';')", ExpectRule: "H4", ExpectConstruct: "(*Datasource).Nodes"},
-			{Name: "map-bbox-order", File: "osmapi/map.go", Find: "bounds.MinLon, bounds.MinLat,", Replace: "bounds.MinLat, bounds.MinLon,", ExpectRule: "H4", ExpectConstruct: "(*Datasource).Map"},
-			{Name: "notessearch-unescaped", File: "osmapi/note.go", Find: "url.QueryEscape(query)", Replace: "url.PathEscape(query)", ExpectRule: "H4", ExpectConstruct: "(*Datasource).NotesSearch"},
-			{Name: "baseurl-ignores-configured", File: "osmapi/datasource.go", Find: "if ds.BaseURL != \"\" {", Replace: "if ds.BaseURL == \"\" {", ExpectRule: "H4", ExpectConstruct: "baseURL"},
-			{Name: "gone-mapped-to-notfound", File: "osmapi/datasource.go", Find: "return &GoneError{URL: url}", Replace: "return &NotFoundError{URL: url}", ExpectRule: "H3", ExpectConstruct: "status 410"},
-			{Name: "non200-check-first", File: "osmapi/datasource.go", Find: "if resp.StatusCode == http.StatusNotFound {", Replace: "if resp.StatusCode != http.StatusOK {\n\t\treturn &UnexpectedStatusCodeError{Code: resp.StatusCode, URL: url}\n\t}\n\n\tif resp.StatusCode == http.StatusNotFound {", ExpectRule: "H3", ExpectConstruct: "status 404"},
-			{Name: "decode-on-3xx", File: "osmapi/datasource.go", Find: "if resp.StatusCode != http.StatusOK {", Replace: "if resp.StatusCode >= 400 {", ExpectRule: "H3", ExpectConstruct: "status other"},
-			{Name: "notfound-asserts-gone", File: "osmapi/datasource.go", Find: "_, ok := err.(*NotFoundError)", Replace: "_, ok := err.(*GoneError)", ExpectRule: "H3", ExpectConstruct: "NotFound"},
-			{Name: "request-post", File: "osmapi/datasource.go", Find: "http.NewRequest(\"GET\", url, nil)", Replace: "http.NewRequest(\"POST\", url, nil)", ExpectRule: "H3", ExpectConstruct: "request"},
-			{Name: "user-error-swallowed", File: "osmapi/user.go", Find: "if err := ds.getFromAPI(ctx, url, &o); err != nil {\n\t\treturn nil, err\n\t}", Replace: "ds.getFromAPI(ctx, url, &o)", ExpectRule: "H3", ExpectConstruct: "propagate@(*Datasource).User"},
-			{Name: "limiter-wait-dropped", File: "osmapi/datasource.go", Find: "\t\terr := ds.Limiter.Wait(ctx)\n\t\tif err != nil {\n\t\t\treturn err\n\t\t}\n", Replace: "", ExpectRule: "H2", ExpectConstruct: "wait-before-do"},
-			{Name: "limiter-error-ignored", File: "osmapi/datasource.go", Find: "\t\terr := ds.Limiter.Wait(ctx)\n\t\tif err != nil {\n\t\t\treturn err\n\t\t}\n", Replace: "\t\tds.Limiter.Wait(ctx)\n", ExpectRule: "H2", ExpectConstruct: "wait-error"},
-			{Name: "limiter-wait-after-do", File: "osmapi/datasource.go", Find: "\tif ds.Limiter != nil {\n\t\terr := ds.Limiter.Wait(ctx)\n\t\tif err != nil {\n\t\t\treturn err\n\t\t}\n\t}\n\n\treq, err := http.NewRequest(\"GET\", url, nil)\n\tif err != nil {\n\t\treturn err\n\t}\n\n\tresp, err := client.Do(req.WithContext(ctx))\n\tif err != nil {\n\t\treturn err\n\t}\n", Replace: "\treq, err := http.NewRequest(\"GET\", url, nil)\n\tif err != nil {\n\t\treturn err\n\t}\n\n\tresp, err := client.Do(req.WithContext(ctx))\n\tif err != nil {\n\t\treturn err\n\t}\n\tif ds.Limiter != nil {\n\t\terr := ds.Limiter.Wait(ctx)\n\t\tif err != nil {\n\t\t\treturn err\n\t\t}\n\t}\n", ExpectRule: "H2", ExpectConstruct: "wait-before-do"},
-			{Name: "node-len-check-eq-zero", File: "osmapi/node.go", Find: "if l := len(o.Nodes); l != 1 {", Replace: "if l := len(o.Nodes); l == 0 {", ExpectRule: "H5", ExpectConstruct: "single@(*Datasource).Node"},
-			{Name: "user-len-check-other-field", File: "osmapi/user.go", Find: "if l := len(o.Users); l != 1 {", Replace: "if l := len(o.Notes); l != 1 {", ExpectRule: "H5", ExpectConstruct: "single@(*Datasource).User"},
-			{Name: "note-len-check-dropped", File: "osmapi/note.go", Find: "\tif l := len(o.Notes); l != 1 {\n\t\treturn nil, fmt.Errorf(\"wrong number of notes, expected 1, got %v\", l)\n\t}\n", Replace: "", ExpectRule: "H5", ExpectConstruct: "single@(*Datasource).Note"},
-			{Name: "wayfull-returns-other-document", File: "osmapi/way.go", Find: "\treturn o, nil\n", Replace: "\treturn &osm.OSM{Ways: o.Ways}, nil\n", ExpectRule: "H5", ExpectConstruct: "result@(*Datasource).WayFull"},
-			{Name: "wrapper-other-method", File: "osmapi/way.go", Find: "return DefaultDatasource.WayRelations(ctx, id, opts...)", Replace: "return DefaultDatasource.NodeRelations(ctx, osm.NodeID(id), opts...)", ExpectRule: "H1", ExpectConstruct: "wrapper@WayRelations"},
-			{Name: "wrapper-drops-options", File: "osmapi/map.go", Find: "return DefaultDatasource.Map(ctx, bounds, opts...)", Replace: "return DefaultDatasource.Map(ctx, bounds)", ExpectRule: "H1", ExpectConstruct: "wrapper@Map"},
-			{Name: "history-request-retried", File: "osmapi/node.go", Find: "\turl := fmt.Sprintf(\"%s/node/%d/history\", ds.baseURL(), id)\n\n\to := &osm.OSM{}\n\tif err := ds.getFromAPI(ctx, url, &o); err != nil {\n\t\treturn nil, err\n\t}\n", Replace: "\turl := fmt.Sprintf(\"%s/node/%d/history\", ds.baseURL(), id)\n\n\to := &osm.OSM{}\n\tfor i := 0; i < 2; i++ {\n\t\tif err := ds.getFromAPI(ctx, url, &o); err != nil {\n\t\t\treturn nil, err\n\t\t}\n\t}\n", ExpectRule: "H1", ExpectConstruct: "once@(*Datasource).NodeHistory"},
-			{Name: "changeset-double-request", File: "osmapi/changeset.go", Find: "\turl := fmt.Sprintf(\"%s/changeset/%d\", ds.baseURL(), id)\n\treturn ds.getChangeset(ctx, url)", Replace: "\turl := fmt.Sprintf(\"%s/changeset/%d\", ds.baseURL(), id)\n\tif _, err := ds.getChangeset(ctx, url); err != nil {\n\t\treturn nil, err\n\t}\n\treturn ds.getChangeset(ctx, url)", ExpectRule: "H1", ExpectConstruct: "once@(*Datasource).Changeset"},
-			{Name: "http-outside-getfromapi", File: "osmapi/user.go", Find: "\to := &osm.OSM{}\n", Replace: "\to := &osm.OSM{}\n\tif resp, err := DefaultDatasource.Client.Get(url); err == nil {\n\t\tresp.Body.Close()\n\t}\n", ExpectRule: "H1", ExpectConstruct: "http-call@"},
-			{Name: "at-local-time", File: "osmapi/options.go", Find: "o.t.UTC().Format(", Replace: "o.t.Format(", ExpectRule: "H6", ExpectConstruct: "apply@At"},
-			{Name: "at-layout", File: "osmapi/options.go", Find: "Format(\"2006-01-02T15:04:05Z\")", Replace: "Format(\"2006-01-02 15:04:05Z\")", ExpectRule: "H6", ExpectConstruct: "apply@At"},
-			{Name: "limit-upper-bound", File: "osmapi/options.go", Find: "10000 < o.n", Replace: "100000 < o.n", ExpectRule: "H6", ExpectConstruct: "range@Limit"},
-			{Name: "limit-ctor-wrong-option", File: "osmapi/options.go", Find: "return &limit{num}", Replace: "return &maxDaysClosed{num}", ExpectRule: "H6", ExpectConstruct: "Limit"},
-			{Name: "closed-key", File: "osmapi/options.go", Find: "\"closed=%d\"", Replace: "\"close=%d\"", ExpectRule: "H6", ExpectConstruct: "apply@MaxDaysClosed"},
-			{Name: "do-error-ignored", File: "osmapi/datasource.go", Find: "\tresp, err := client.Do(req.WithContext(ctx))\n\tif err != nil {\n\t\treturn err\n\t}\n", Replace: "\tresp, _ := client.Do(req.WithContext(ctx))\n", ExpectRule: "H1", ExpectConstruct: "do-once@"},
-			{Name: "option-error-ignored", File: "osmapi/options.go", Find: "\t\tparams, err = o.applyFeature(params)\n\t\tif err != nil {\n\t\t\treturn \"\", err\n\t\t}\n", Replace: "\t\tparams, _ = o.applyFeature(params)\n\t\t_ = err\n", ExpectRule: "H6", ExpectConstruct: "join@featureOptions"},
-			{Name: "way-single-guard-allows-many", File: "osmapi/way.go", Find: "if l := len(o.Ways); l != 1 {", Replace: "if l := len(o.Ways); l < 1 {", ExpectRule: "H5", ExpectConstruct: "single@(*Datasource).Way"},
-			{Name: "relations-csv-separator-unguarded", File: "osmapi/relation.go", Find: "\t\tif i != 0 {\n\t\t\tdata = append(data, byte(','))\n\t\t}\n", Replace: "\t\t_ = i\n\t\tdata = append(data, byte(','))\n", ExpectRule: "H4", ExpectConstruct: "path@(*Datasource).Relations"},
-			{Name: "changeset-helper-swallows-request-error", File: "osmapi/changeset.go", Find: "\tif err := ds.getFromAPI(ctx, url, &css); err != nil {\n\t\treturn nil, err\n\t}\n", Replace: "\tif err := ds.getFromAPI(ctx, url, &css); err != nil {\n\t\treturn nil, fmt.Errorf(\"changeset: %v\", err)\n\t}\n", ExpectRule: "H3", ExpectConstruct: "propagate@(*Datasource).ChangesetWithDiscussion"},
-			{Name: "closure-helper-always-first-id", File: "osmapi/relation.go",
-				Find: `	data := make([]byte, 0, 11*len(ids))
-	for i, id := range ids {
-		if i != 0 {
-			data = append(data, byte(','))
-		}
-		data = strconv.AppendInt(data, int64(id), 10)
-	}
-	url := ds.baseURL() + "/relations?relations=" + string(data)
-	if len(params) > 0 {
-		url += "&" + params
-	}
-
-	o := &osm.OSM{}
-	if err := ds.getFromAPI(ctx, url, &o); err != nil {
-		return nil, err
-	}
-
-	return o.Relations, nil
-}
-`,
-				Replace: `	idList := joinInt64(len(ids), func(i int) int64 { return int64(ids[0]) })
-	url := ds.baseURL() + "/relations?relations=" + idList
-	if len(params) > 0 {
-		url += "&" + params
-	}
-
-	o := &osm.OSM{}
-	if err := ds.getFromAPI(ctx, url, &o); err != nil {
-		return nil, err
-	}
-
-	return o.Relations, nil
-}
-
-// joinInt64 formats the n numbers at(0..n-1) in base 10, comma separated.
-func joinInt64(n int, at func(i int) int64) string {
-	out := make([]byte, 0, 11*n)
-	for i := 0; i < n; i++ {
-		if i > 0 {
-			out = append(out, ',')
-		}
-		out = strconv.AppendInt(out, at(i), 10)
-	}
-	return string(out)
-}
-`, ExpectRule: "H4", ExpectConstruct: "path@(*Datasource).Relations"},
-			{Name: "closure-helper-separator-guard-off-by-one", File: "osmapi/relation.go",
-				Find: `	data := make([]byte, 0, 11*len(ids))
-	for i, id := range ids {
-		if i != 0 {
-			data = append(data, byte(','))
-		}
-		data = strconv.AppendInt(data, int64(id), 10)
-	}
-	url := ds.baseURL() + "/relations?relations=" + string(data)
-	if len(params) > 0 {
-		url += "&" + params
-	}
-
-	o := &osm.OSM{}
-	if err := ds.getFromAPI(ctx, url, &o); err != nil {
-		return nil, err
-	}
-
-	return o.Relations, nil
-}
-`,
-				Replace: `	idList := joinInt64(len(ids), func(i int) int64 { return int64(ids[i]) })
-	url := ds.baseURL() + "/relations?relations=" + idList
-	if len(params) > 0 {
-		url += "&" + params
-	}
-
-	o := &osm.OSM{}
-	if err := ds.getFromAPI(ctx, url, &o); err != nil {
-		return nil, err
-	}
-
-	return o.Relations, nil
-}
-
-// joinInt64 formats the n numbers at(0..n-1) in base 10, comma separated.
-func joinInt64(n int, at func(i int) int64) string {
-	out := make([]byte, 0, 11*n)
-	for i := 0; i < n; i++ {
-		if i > 1 {
-			out = append(out, ',')
-		}
-		out = strconv.AppendInt(out, at(i), 10)
-	}
-	return string(out)
-}
-`, ExpectRule: "H4", ExpectConstruct: "path@(*Datasource).Relations"},
-			{Name: "closure-helper-semicolon", File: "osmapi/relation.go",
-				Find: `	data := make([]byte, 0, 11*len(ids))
-	for i, id := range ids {
-		if i != 0 {
-			data = append(data, byte(','))
-		}
-		data = strconv.AppendInt(data, int64(id), 10)
-	}
-	url := ds.baseURL() + "/relations?relations=" + string(data)
-	if len(params) > 0 {
-		url += "&" + params
-	}
-
-	o := &osm.OSM{}
-	if err := ds.getFromAPI(ctx, url, &o); err != nil {
-		return nil, err
-	}
-
-	return o.Relations, nil
-}
-`,
-				Replace: `	idList := joinInt64(len(ids), func(i int) int64 { return int64(ids[i]) })
-	url := ds.baseURL() + "/relations?relations=" + idList
-	if len(params) > 0 {
-		url += "&" + params
-	}
-
-	o := &osm.OSM{}
-	if err := ds.getFromAPI(ctx, url, &o); err != nil {
-		return nil, err
-	}
-
-	return o.Relations, nil
-}
-
-// joinInt64 formats the n numbers at(0..n-1) in base 10, comma separated.
-func joinInt64(n int, at func(i int) int64) string {
-	out := make([]byte, 0, 11*n)
-	for i := 0; i < n; i++ {
-		if i > 0 {
-			out = append(out, ';')
-		}
-		out = strconv.AppendInt(out, at(i), 10)
-	}
-	return string(out)
-}
-`, ExpectRule: "H4", ExpectConstruct: "path@(*Datasource).Relations"},
-			{Name: "status-table-410-mapped-to-notfound-constructor", File: "osmapi/datasource.go",
-				Find: `	if resp.StatusCode == http.StatusNotFound {
-		return &NotFoundError{URL: url}
-	}
-
-	if resp.StatusCode == http.StatusForbidden {
-		return &ForbiddenError{URL: url}
-	}
-
-	if resp.StatusCode == http.StatusGone {
-		return &GoneError{URL: url}
-	}
-
-	if resp.StatusCode == http.StatusRequestURITooLong {
-		return &RequestURITooLongError{URL: url}
-	}
-
-	if resp.StatusCode != http.StatusOK {
-		return &UnexpectedStatusCodeError{
-			Code: resp.StatusCode,
-			URL:  url,
-		}
-	}
-
-	return xml.NewDecoder(resp.Body).Decode(item)
-}
-`,
-				Replace: `	if resp.StatusCode == http.StatusOK {
-		return xml.NewDecoder(resp.Body).Decode(item)
-	}
-
-	if newError, ok := statusErrors[resp.StatusCode]; ok {
-		return newError(url)
-	}
-
-	return &UnexpectedStatusCodeError{Code: resp.StatusCode, URL: url}
-}
-
-var statusErrors = map[int]func(url string) error{
-	http.StatusNotFound: func(url string) error { return &NotFoundError{URL: url} },
-	http.StatusForbidden: func(url string) error { return &ForbiddenError{URL: url} },
-	http.StatusGone: func(url string) error { return &NotFoundError{URL: url} },
-	http.StatusRequestURITooLong: func(url string) error { return &RequestURITooLongError{URL: url} },
-}
-`, ExpectRule: "H3", ExpectConstruct: "status 410"},
-			{Name: "status-table-403-missing", File: "osmapi/datasource.go",
-				Find: `	if resp.StatusCode == http.StatusNotFound {
-		return &NotFoundError{URL: url}
-	}
-
-	if resp.StatusCode == http.StatusForbidden {
-		return &ForbiddenError{URL: url}
-	}
-
-	if resp.StatusCode == http.StatusGone {
-		return &GoneError{URL: url}
-	}
-
-	if resp.StatusCode == http.StatusRequestURITooLong {
-		return &RequestURITooLongError{URL: url}
-	}
-
-	if resp.StatusCode != http.StatusOK {
-		return &UnexpectedStatusCodeError{
-			Code: resp.StatusCode,
-			URL:  url,
-		}
-	}
-
-	return xml.NewDecoder(resp.Body).Decode(item)
-}
-`,
-				Replace: `	if resp.StatusCode == http.StatusOK {
-		return xml.NewDecoder(resp.Body).Decode(item)
-	}
-
-	if newError, ok := statusErrors[resp.StatusCode]; ok {
-		return newError(url)
-	}
-
-	return &UnexpectedStatusCodeError{Code: resp.StatusCode, URL: url}
-}
-
-var statusErrors = map[int]func(url string) error{
-	http.StatusNotFound: func(url string) error { return &NotFoundError{URL: url} },
-	http.StatusGone: func(url string) error { return &GoneError{URL: url} },
-	http.StatusRequestURITooLong: func(url string) error { return &RequestURITooLongError{URL: url} },
-}
-`, ExpectRule: "H3", ExpectConstruct: "status 403"},
-			{Name: "status-table-first-with-200-entry-returning-error", File: "osmapi/datasource.go",
-				Find: `	if resp.StatusCode == http.StatusNotFound {
-		return &NotFoundError{URL: url}
-	}
-
-	if resp.StatusCode == http.StatusForbidden {
-		return &ForbiddenError{URL: url}
-	}
-
-	if resp.StatusCode == http.StatusGone {
-		return &GoneError{URL: url}
-	}
-
-	if resp.StatusCode == http.StatusRequestURITooLong {
-		return &RequestURITooLongError{URL: url}
-	}
-
-	if resp.StatusCode != http.StatusOK {
-		return &UnexpectedStatusCodeError{
-			Code: resp.StatusCode,
-			URL:  url,
-		}
-	}
-
-	return xml.NewDecoder(resp.Body).Decode(item)
-}
-`,
-				Replace: `	if newError, ok := statusErrors[resp.StatusCode]; ok {
-		return newError(url)
-	}
-
-	if resp.StatusCode != http.StatusOK {
-		return &UnexpectedStatusCodeError{Code: resp.StatusCode, URL: url}
-	}
-
-	return xml.NewDecoder(resp.Body).Decode(item)
-}
-
-var statusErrors = map[int]func(url string) error{
-	http.StatusOK: func(url string) error { return &UnexpectedStatusCodeError{Code: http.StatusOK, URL: url} },
-	http.StatusNotFound: func(url string) error { return &NotFoundError{URL: url} },
-	http.StatusForbidden: func(url string) error { return &ForbiddenError{URL: url} },
-	http.StatusGone: func(url string) error { return &GoneError{URL: url} },
-	http.StatusRequestURITooLong: func(url string) error { return &RequestURITooLongError{URL: url} },
-}
-`, ExpectRule: "H3", ExpectConstruct: "status 200"},
-			{Name: "limit-bounds-struct-wrong-max", File: "osmapi/options.go",
-				Find: `func (o *limit) applyNotes(p []string) ([]string, error) {
-	if o.n < 1 || 10000 < o.n {
-		return nil, errors.New("osmapi: limit must be between 1 and 10000")
-	}
-	return append(p, fmt.Sprintf("limit=%d", o.n)), nil
-}
-`,
-				Replace: `func (o *limit) applyNotes(p []string) ([]string, error) {
-	if o.n < notesLimit.min || o.n > notesLimit.max {
-		return nil, errors.New("osmapi: limit must be between 1 and 10000")
-	}
-	return append(p, fmt.Sprintf("limit=%d", o.n)), nil
-}
-
-var notesLimit = struct{ min, max int }{min: 1, max: 100000}
-`, ExpectRule: "H6", ExpectConstruct: "range@Limit"},
-			{Name: "uri-too-long-fabricated-before-limiter-and-request", File: "osmapi/datasource.go",
-				Find: `	if ds.Limiter != nil {
-		err := ds.Limiter.Wait(ctx)
-`,
-				Replace: `	if len(url) > 8190 {
-		// known to fail, do not spend a limiter token and a round trip on it.
-		return &RequestURITooLongError{URL: url}
-	}
-
-	if ds.Limiter != nil {
-		err := ds.Limiter.Wait(ctx)
-`, ExpectRule: "H1", ExpectConstruct: "do-once@"},
-			{Name: "empty-url-returns-nil-without-request", File: "osmapi/datasource.go",
-				Find: `	if ds.Limiter != nil {
-		err := ds.Limiter.Wait(ctx)
-`,
-				Replace: `	if url == "" {
-		return nil
-	}
-
-	if ds.Limiter != nil {
-		err := ds.Limiter.Wait(ctx)
-`, ExpectRule: "H1", ExpectConstruct: "do-once@"},
-			{Name: "ways-empty-id-list-returns-nil-without-request", File: "osmapi/way.go",
-				Find: `	data := make([]byte, 0, 11*len(ids))
-`,
-				Replace: `	if len(ids) == 0 {
-		return nil, nil
-	}
-	data := make([]byte, 0, 11*len(ids))
-`, ExpectRule: "H1", ExpectConstruct: "once@(*Datasource).Ways"},
-			{Name: "node-negative-id-synthesises-404", File: "osmapi/node.go",
-				Find: `	url := fmt.Sprintf("%s/node/%d?%s", ds.baseURL(), id, params)
-`,
-				Replace: `	url := fmt.Sprintf("%s/node/%d?%s", ds.baseURL(), id, params)
-	if id < 0 {
-		return nil, &NotFoundError{URL: url}
-	}
-`, ExpectRule: "H1", ExpectConstruct: "once@(*Datasource).Node"},
-			{Name: "notes-presized-list-leading-empty-element", File: "osmapi/note.go",
-				Find: `	params := make([]string, 0, 1+len(opts))
-	params = append(params, fmt.Sprintf("bbox=%f,%f,%f,%f",
-		bounds.MinLon, bounds.MinLat,
-		bounds.MaxLon, bounds.MaxLat))
-`,
-				Replace: `	params := make([]string, 2, 2+len(opts))
-	params[1] = fmt.Sprintf("bbox=%f,%f,%f,%f",
-		bounds.MinLon, bounds.MinLat,
-		bounds.MaxLon, bounds.MaxLat)
-`, ExpectRule: "H4", ExpectConstruct: "path@(*Datasource).Notes"},
-			{Name: "nodes-presized-ids-joined-with-semicolon", File: "osmapi/node.go",
-				Find: `	"strconv"
-
-	"github.com/paulmach/osm"
-)
-
-// Node returns the latest version of the node from the osm rest api.
-// Delegates to the DefaultDatasource and uses its http.Client to make the request.
-func Node(ctx context.Context, id osm.NodeID, opts ...FeatureOption) (*osm.Node, error) {
-	return DefaultDatasource.Node(ctx, id, opts...)
-}
-
-// Node returns the latest version of the node from the osm rest api.
-func (ds *Datasource) Node(ctx context.Context, id osm.NodeID, opts ...FeatureOption) (*osm.Node, error) {
-	params, err := featureOptions(opts)
-	if err != nil {
-		return nil, err
-	}
-	url := fmt.Sprintf("%s/node/%d?%s", ds.baseURL(), id, params)
-
-	o := &osm.OSM{}
-	if err := ds.getFromAPI(ctx, url, &o); err != nil {
-		return nil, err
-	}
-
-	if l := len(o.Nodes); l != 1 {
-		return nil, fmt.Errorf("wrong number of nodes, expected 1, got %v", l)
-	}
-
-	return o.Nodes[0], nil
-}
-
-// Nodes returns the latest version of the nodes from the osm rest api.
-// Delegates to the DefaultDatasource and uses its http.Client to make the request.
-func Nodes(ctx context.Context, ids []osm.NodeID, opts ...FeatureOption) (osm.Nodes, error) {
-	return DefaultDatasource.Nodes(ctx, ids, opts...)
-}
-
-// Nodes returns the latest version of the nodes from the osm rest api.
-// Will return 404 if any node is missing.
-func (ds *Datasource) Nodes(ctx context.Context, ids []osm.NodeID, opts ...FeatureOption) (osm.Nodes, error) {
-	params, err := featureOptions(opts)
-	if err != nil {
-		return nil, err
-	}
-
-	data := make([]byte, 0, 11*len(ids))
-	for i, id := range ids {
-		if i != 0 {
-			data = append(data, byte(','))
-		}
-		data = strconv.AppendInt(data, int64(id), 10)
-	}
-	url := ds.baseURL() + "/nodes?nodes=" + string(data)
-`,
-				Replace: `	"strconv"
-	"strings"
-
-	"github.com/paulmach/osm"
-)
-
-// Node returns the latest version of the node from the osm rest api.
-// Delegates to the DefaultDatasource and uses its http.Client to make the request.
-func Node(ctx context.Context, id osm.NodeID, opts ...FeatureOption) (*osm.Node, error) {
-	return DefaultDatasource.Node(ctx, id, opts...)
-}
-
-// Node returns the latest version of the node from the osm rest api.
-func (ds *Datasource) Node(ctx context.Context, id osm.NodeID, opts ...FeatureOption) (*osm.Node, error) {
-	params, err := featureOptions(opts)
-	if err != nil {
-		return nil, err
-	}
-	url := fmt.Sprintf("%s/node/%d?%s", ds.baseURL(), id, params)
-
-	o := &osm.OSM{}
-	if err := ds.getFromAPI(ctx, url, &o); err != nil {
-		return nil, err
-	}
-
-	if l := len(o.Nodes); l != 1 {
-		return nil, fmt.Errorf("wrong number of nodes, expected 1, got %v", l)
-	}
-
-	return o.Nodes[0], nil
-}
-
-// Nodes returns the latest version of the nodes from the osm rest api.
-// Delegates to the DefaultDatasource and uses its http.Client to make the request.
-func Nodes(ctx context.Context, ids []osm.NodeID, opts ...FeatureOption) (osm.Nodes, error) {
-	return DefaultDatasource.Nodes(ctx, ids, opts...)
-}
-
-// Nodes returns the latest version of the nodes from the osm rest api.
-// Will return 404 if any node is missing.
-func (ds *Datasource) Nodes(ctx context.Context, ids []osm.NodeID, opts ...FeatureOption) (osm.Nodes, error) {
-	params, err := featureOptions(opts)
-	if err != nil {
-		return nil, err
-	}
-
-	strs := make([]string, len(ids))
-	for i := range ids {
-		strs[i] = strconv.FormatInt(int64(ids[i]), 10)
-	}
-	url := ds.baseURL() + "/nodes?nodes=" + strings.Join(strs, ";")
-`, ExpectRule: "H4", ExpectConstruct: "path@(*Datasource).Nodes"},
-			{Name: "int64-list-join-separator-guard-inverted", File: "osmapi/way.go",
-				Find: `	data := make([]byte, 0, 11*len(ids))
-	for i, id := range ids {
-		if i != 0 {
-			data = append(data, byte(','))
-		}
-		data = strconv.AppendInt(data, int64(id), 10)
-	}
-	url := ds.baseURL() + "/ways?ways=" + string(data)
-	if len(params) > 0 {
-		url += "&" + params
-	}
-
-	o := &osm.OSM{}
-	if err := ds.getFromAPI(ctx, url, &o); err != nil {
-		return nil, err
-	}
-
-	return o.Ways, nil
-}
-`,
-				Replace: `	raw := make([]int64, len(ids))
-	for i, id := range ids {
-		raw[i] = int64(id)
-	}
-	url := ds.baseURL() + "/ways?ways=" + joinInts(raw...)
-	if len(params) > 0 {
-		url += "&" + params
-	}
-
-	o := &osm.OSM{}
-	if err := ds.getFromAPI(ctx, url, &o); err != nil {
-		return nil, err
-	}
-
-	return o.Ways, nil
-}
-
-// joinInts formats the numbers in base 10, comma separated.
-func joinInts(nums ...int64) (list string) {
-	for _, n := range nums {
-		if list == "" {
-			list += ","
-		}
-		list += strconv.FormatInt(n, 10)
-	}
-	return
-}
-`, ExpectRule: "H4", ExpectConstruct: "path@(*Datasource).Ways"},
-			{Name: "request-struct-joins-with-semicolon", File: "osmapi/note.go",
-				Find: `	params := make([]string, 0, 1+len(opts))
-	params = append(params, fmt.Sprintf("bbox=%f,%f,%f,%f",
-		bounds.MinLon, bounds.MinLat,
-		bounds.MaxLon, bounds.MaxLat))
-
-	var err error
-	for _, o := range opts {
-		params, err = o.applyNotes(params)
-		if err != nil {
-			return nil, err
-		}
-	}
-
-	url := fmt.Sprintf("%s/notes?%s", ds.baseURL(), strings.Join(params, "&"))
-
-	o := &osm.OSM{}
-	if err := ds.getFromAPI(ctx, url, &o); err != nil {
-		return nil, err
-	}
-
-	return o.Notes, nil
-}
-`,
-				Replace: `	q := &query{}
-	q.path = ds.baseURL() + "/notes"
-	q.add(fmt.Sprintf("bbox=%f,%f,%f,%f",
-		bounds.MinLon, bounds.MinLat,
-		bounds.MaxLon, bounds.MaxLat))
-
-	for _, o := range opts {
-		var err error
-		if q.parts, err = o.applyNotes(q.parts); err != nil {
-			return nil, err
-		}
-	}
-
-	url := q.String()
-
-	o := &osm.OSM{}
-	if err := ds.getFromAPI(ctx, url, &o); err != nil {
-		return nil, err
-	}
-
-	return o.Notes, nil
-}
-
-// query is a request url under construction.
-type query struct {
-	path  string
-	parts []string
-}
-
-func (q *query) add(p string) { q.parts = append(q.parts, p) }
-
-func (q query) String() (s string) {
-	s = q.path + "?"
-	s += strings.Join(q.parts, ";")
-	return
-}
-`, ExpectRule: "H4", ExpectConstruct: "path@(*Datasource).Notes"},
-			{Name: "named-results-request-error-cleared", File: "osmapi/changeset.go",
-				Find: `func (ds *Datasource) getChangeset(ctx context.Context, url string) (*osm.Changeset, error) {
-	css := &osm.OSM{}
-	if err := ds.getFromAPI(ctx, url, &css); err != nil {
-		return nil, err
-	}
-
-	if l := len(css.Changesets); l != 1 {
-		return nil, fmt.Errorf("wrong number of changesets, expected 1, got %v", l)
-	}
-
-	return css.Changesets[0], nil
-}
-`,
-				Replace: `func (ds *Datasource) getChangeset(ctx context.Context, url string) (cs *osm.Changeset, err error) {
-	css := &osm.OSM{}
-	if err = ds.getFromAPI(ctx, url, &css); err != nil {
-		err = nil
-	}
-
-	if l := len(css.Changesets); l != 1 {
-		err = fmt.Errorf("wrong number of changesets, expected 1, got %v", l)
-		return
-	}
-
-	cs = css.Changesets[0]
-	return
-}
-`, ExpectRule: "H3", ExpectConstruct: "propagate@(*Datasource).Changeset"},
-			{Name: "featureoptions-join-comma", File: "osmapi/options.go", Find: "strings.Join(params, \"&\")", Replace: "strings.Join(params, \",\")", ExpectRule: "H6", ExpectConstruct: "join@featureOptions"},
-		},
+		Benign:  c20Benign(),
+		Mutants: c20Mutants(),
 	})
 }
 
 // ---------------------------------------------------------------------------
 // external table
-
-type c20Endpoint struct {
-	Method   string         `json:"method"`
-	Doc      string         `json:"doc"`
-	URL      string         `json:"url"`
-	Params   map[string]int `json:"params"`
-	Document string         `json:"document"`
-	Result   string         `json:"result"`
-	Single   bool           `json:"single"`
-}
-
-type c20Option struct {
-	Ctor       string `json:"ctor"`
-	Kind       string `json:"kind"`
-	Key        string `json:"key"`
-	Value      string `json:"value"`
-	TimeLayout string `json:"time_layout"`
-	UTC        bool   `json:"utc"`
-	Min        *int64 `json:"min"`
-	Max        *int64 `json:"max"`
-}
-
-type c20Table struct {
-	HTTPMethod      string            `json:"http_method"`
-	BasePathSuffix  string            `json:"base_path_suffix"`
-	OptionSeparator string            `json:"option_separator"`
-	OKStatus        int64             `json:"ok_status"`
-	Statuses        map[string]string `json:"statuses"`
-	OtherStatus     string            `json:"other_status"`
-	NotFoundType    string            `json:"not_found_type"`
-	Endpoints       []c20Endpoint     `json:"endpoints"`
-	Options         []c20Option       `json:"options"`
-}
-
-func (t *c20Table) endpoint(name string) *c20Endpoint {
-	for i := range t.Endpoints {
-		if t.Endpoints[i].Method == name {
-			return &t.Endpoints[i]
-		}
-	}
-	return nil
-}
-
-// c20LoadTable reads tables/api06.json from rules.TablesDir. The sensitivity sub-processes of
-// main.go are started without -verif, so when the file is absent there the directories next to
-// the executable (<exe>/tables, <exe>/../tables) are tried as well.
-func c20LoadTable(r *core.R) *c20Table {
-	cands := []string{filepath.Join(TablesDir, "api06.json")}
-	if exe, err := os.Executable(); err == nil {
-		d := filepath.Dir(exe)
-		cands = append(cands, filepath.Join(d, "tables", "api06.json"), filepath.Join(d, "..", "tables", "api06.json"))
-	}
-	var lastErr error
-	for _, p := range cands {
-		b, err := os.ReadFile(p)
-		if err != nil {
-			lastErr = err
-			continue
-		}
-		t := &c20Table{}
-		if err := json.Unmarshal(b, t); err != nil {
-			r.Anchor("tables/api06.json (unparsable: " + err.Error() + ")")
-			return nil
-		}
-		if len(t.Endpoints) == 0 || len(t.Statuses) == 0 || len(t.Options) == 0 || t.HTTPMethod == "" || t.OptionSeparator == "" {
-			r.Anchor("tables/api06.json (incomplete: endpoints/statuses/options/http_method/option_separator required)")
-			return nil
-		}
-		return t
-	}
-	r.Anchor(fmt.Sprintf("tables/api06.json (%v)", lastErr))
-	return nil
-}
-
-// ---------------------------------------------------------------------------
-// shared context
 
 const c20PkgRel = "osmapi"
 
@@ -1027,4 +321,13 @@ func c20ParamList(sig *types.Signature, ep *c20Endpoint) string {
 		s = append(s, fmt.Sprintf("%s=#%d %s", role, i, sig.Params().At(i).Name()))
 	}
 	return strings.Join(s, ", ")
+}
+
+// c20Mutants is the sensitivity suite (c20_mutants*.go).
+func c20Mutants() []core.Mutant {
+	var out []core.Mutant
+	for _, l := range [][]core.Mutant{c20Mutants1(), c20Mutants2(), c20Mutants3()} {
+		out = append(out, l...)
+	}
+	return out
 }
